@@ -1,5 +1,5 @@
 (* Props/C02.v -- C02: composition law.  Property theorems only. *)
-From AT Require Import Num Vec Aff PTree Cells Abs ArenaEval ArenaCompose ArenaComposeAbs ArenaFrameCheck.
+From AT Require Import Num Vec Aff PTree Cells Abs ArenaEval ArenaCompose ArenaComposeAbs ArenaFrameCheck ArenaComposeOrder.
 
 (* f.compose(g) without pruning: h(x) is defined exactly when f(x) and g(f(x)) are, and then h(x) = g(f(x));
    every branching factor (children lists of any length), partial operands (U), boundary inputs. *)
@@ -115,3 +115,88 @@ Print Assumptions C02_arena_compose_ok.
 Print Assumptions C02_arena_leaves_preserved.
 Print Assumptions C02_arena_compose_twice.
 Print Assumptions C02_frame_nonvacuous.
+
+(* ---- the generic entry point with the terminals in ANY order (Pwl/ArenaComposeOrder.v) ----
+   generic_composition_inplace is public and takes the list of terminals of the receiver as an argument; compose passes
+   terminal_indices() (ascending).  For every permutation of the terminals the run returns Ok and every node of the
+   receiver abstracts to the lifted tree, exactly as for the ascending order *)
+Theorem C02_arena_any_terminal_order : forall alloc K s L ts a, fresh_alloc alloc -> karity K L -> L <> U -> leaves_empty K a ->
+  Permutation ts (terminal_keys a) ->
+  exists a', arena_compose_list alloc K s L ts a = Some a' /\
+    forall fuel i t, abs_at fuel a i = Some t -> exists F, abs_at F a' i = Some (lift s t L).
+Proof. exact arena_compose_list_abs_perm. Qed.
+(* the frame clause for every order: every old cell keeps index, parent, children, cached state, decisions their value;
+   non-terminals are not written; the leaves keep K empty slots (so runs chain) *)
+Theorem C02_arena_any_terminal_order_frame : forall alloc K s L ts a a', fresh_alloc alloc ->
+  Permutation ts (terminal_keys a) -> arena_compose_list alloc K s L ts a = Some a' ->
+  extends a a' /\ (forall k c, ~ In k (terminal_keys a) -> aget a k = Some c -> aget a' k = Some c) /\
+  (leaves_empty K a -> leaves_empty K a').
+Proof. exact arena_compose_list_extends_perm. Qed.
+(* two orders (and two allocators): the same abstraction at every node of the receiver *)
+Theorem C02_arena_order_irrelevant : forall alloc1 alloc2 K s L ts1 ts2 a a1 a2, fresh_alloc alloc1 -> fresh_alloc alloc2 ->
+  karity K L -> L <> U -> leaves_empty K a -> Permutation ts1 (terminal_keys a) -> Permutation ts2 (terminal_keys a) ->
+  arena_compose_list alloc1 K s L ts1 a = Some a1 -> arena_compose_list alloc2 K s L ts2 a = Some a2 ->
+  forall fuel i t, abs_at fuel a i = Some t -> exists F t', abs_at F a1 i = Some t' /\ abs_at F a2 i = Some t'.
+Proof. exact arena_compose_order_irrelevant. Qed.
+(* the caller lists only SOME terminals (duplicate-free, any order): Ok, frame, unlisted cells not written, and the
+   result abstracts to the tree in which exactly the listed terminals carry the grafted copy of lhs
+   (abs_sub (lift_sel s L ts): abs_at with `graft s L` at the terminals whose key is in ts and `T` at the others) *)
+Theorem C02_arena_listed_terminals_only : forall alloc K s L ts a, fresh_alloc alloc -> karity K L -> L <> U -> leaves_empty K a ->
+  NoDup ts -> incl ts (terminal_keys a) ->
+  (exists a', arena_compose_list alloc K s L ts a = Some a') /\
+  forall a', arena_compose_list alloc K s L ts a = Some a' ->
+    extends a a' /\ (forall k c, ~ In k ts -> aget a k = Some c -> aget a' k = Some c) /\
+    forall fuel i t, abs_sub (lift_sel s L ts) fuel a i = Some t -> exists F, abs_at F a' i = Some t.
+Proof. exact arena_compose_list_sub. Qed.
+(* what the indexed abstraction is at the two ends: nothing listed = abs_at, everything listed = the lifted tree *)
+Theorem C02_arena_listed_none : forall s L fuel a i, abs_sub (lift_sel s L []) fuel a i = abs_at fuel a i.
+Proof. exact abs_sub_nil. Qed.
+Theorem C02_arena_listed_all : forall s L ts a, (forall j, In j (terminal_keys a) -> In j ts) ->
+  forall fuel i t, abs_at fuel a i = Some t -> abs_sub (lift_sel s L ts) fuel a i = Some (lift s t L).
+Proof. exact abs_sub_all. Qed.
+(* non-vacuity: an arena with two terminals and a freed slot satisfies the hypotheses; ascending and reversed lists both
+   return Ok with the same abstraction (the lifted tree) and the old links / cached states kept, the two result arenas
+   differ (fresh keys 4, 5 swap parents); with only terminal 3 listed terminal 2 is kept *)
+Example C02_arena_order_nonvacuous :
+  (fresh_alloc next_key /\ karity 2 exa_L /\ exa_L <> U /\ leaves_empty 2 exo_arena /\
+   terminal_keys exo_arena = [2%nat; 3%nat] /\ Permutation [3%nat; 2%nat] (terminal_keys exo_arena) /\
+   abs_at 5 exo_arena 0%nat = Some exo_t) /\
+  (option_map exo_view (arena_compose_list next_key 2%nat comp_schema exa_L [2%nat; 3%nat] exo_arena)
+   = Some (Some (lift comp_schema exo_t exa_L),
+           [ Some (None, [Some 3%nat; Some 2%nat], false, Indet);
+             None;
+             Some (Some 0%nat, [Some 4%nat; None], false, Feas);
+             Some (Some 0%nat, [Some 5%nat; None], false, Indet);
+             Some (Some 2%nat, [None; None], true, Indet);
+             Some (Some 3%nat, [None; None], true, Indet) ]) /\
+   option_map exo_view (arena_compose_list next_key 2%nat comp_schema exa_L [3%nat; 2%nat] exo_arena)
+   = Some (Some (lift comp_schema exo_t exa_L),
+           [ Some (None, [Some 3%nat; Some 2%nat], false, Indet);
+             None;
+             Some (Some 0%nat, [Some 5%nat; None], false, Feas);
+             Some (Some 0%nat, [Some 4%nat; None], false, Indet);
+             Some (Some 3%nat, [None; None], true, Indet);
+             Some (Some 2%nat, [None; None], true, Indet) ]) /\
+   arena_compose_list next_key 2%nat comp_schema exa_L [2%nat; 3%nat] exo_arena
+   = arena_compose next_key 2%nat comp_schema exa_L exo_arena /\
+   arena_compose_list next_key 2%nat comp_schema exa_L [3%nat; 2%nat] exo_arena
+   <> arena_compose_list next_key 2%nat comp_schema exa_L [2%nat; 3%nat] exo_arena) /\
+  (incl [3%nat] (terminal_keys exo_arena) /\
+   abs_sub (lift_sel comp_schema exa_L [3%nat]) 5 exo_arena 0%nat
+   = Some (D (exa_f 1 0) [graft comp_schema exa_L (exa_f (1 + 1 + 1) 0); T (exa_f (1 + 1) 0)]) /\
+   option_map exo_view (arena_compose_list next_key 2%nat comp_schema exa_L [3%nat] exo_arena)
+   = Some (Some (D (exa_f 1 0) [graft comp_schema exa_L (exa_f (1 + 1 + 1) 0); T (exa_f (1 + 1) 0)]),
+           [ Some (None, [Some 3%nat; Some 2%nat], false, Indet);
+             None;
+             Some (Some 0%nat, [None; None], true, Feas);
+             Some (Some 0%nat, [Some 4%nat; None], false, Indet);
+             Some (Some 3%nat, [None; None], true, Indet) ])).
+Proof. exact (conj exo_hyps (conj exo_run exo_run_sub)). Qed.
+
+Print Assumptions C02_arena_any_terminal_order.
+Print Assumptions C02_arena_any_terminal_order_frame.
+Print Assumptions C02_arena_order_irrelevant.
+Print Assumptions C02_arena_listed_terminals_only.
+Print Assumptions C02_arena_listed_none.
+Print Assumptions C02_arena_listed_all.
+Print Assumptions C02_arena_order_nonvacuous.
